@@ -45,8 +45,15 @@ namespace igris
         flat_map &operator=(const flat_map &) = default;
         flat_map &operator=(flat_map &&) = default;
 
-        flat_map(const std::initializer_list<value_type> &init) : storage(init)
+        flat_map(const std::initializer_list<value_type> &init)
         {
+            // like std::map: the first entry of a key wins, later duplicates
+            // are dropped (count() was 2 for {{1,10},{1,20}})
+            for (const auto &v : init)
+            {
+                if (find(v.first) == storage.end())
+                    storage.push_back(v);
+            }
         }
 
         bool operator==(const flat_map &other) const
